@@ -121,6 +121,7 @@ EXPECTED_SKELETONS = {
     "_duplicate_step_message": None,
     "_duplicate_static_tree_message": None,
     "_claim_collision_message": None,
+    "_volatile_input_message": None,
 }
 
 
@@ -148,7 +149,8 @@ def translate_messages(check_skeletons=True):
     # simple single-return builders -----------------------------------------------------------
     for name, sig in (("_static_tree_file_message", ["tree_path", "path"]),
                       ("_static_tree_product_message", ["tree_path", "path"]),
-                      ("_glob_product_message", ["pattern", "glob_step_label", "path", "step_label"])):
+                      ("_glob_product_message", ["pattern", "glob_step_label", "path", "step_label"]),
+                      ("_volatile_input_message", ["path", "producer", "consumer"])):
         fn = fns[name]
         if args_of(fn) != sig:
             raise TranslatorError(f"{name}: signature changed: {args_of(fn)}")
@@ -353,6 +355,7 @@ def generate(check_skeletons=True):
         "_static_tree_file_message": "holes: 0 tree_path, 1 path",
         "_static_tree_product_message": "holes: 0 tree_path, 1 path",
         "_glob_product_message": "holes: 0 pattern, 1 glob_step_label, 2 path, 3 step_label",
+        "_volatile_input_message": "holes: 0 path, 1 producer, 2 consumer",
         "phrase_step": "_creator_phrase, kind == Step.kind(); holes: 0 label",
         "phrase_root": "_creator_phrase, kind == Root.kind()",
         "clash_same_role": "_file_collision_message, decl1.role == decl2.role; holes: 0 verb1, 2 decl1.creator, 3 decl2.creator",
@@ -365,7 +368,7 @@ def generate(check_skeletons=True):
         "duptree": "_duplicate_static_tree_message; holes: 0 tree_path, 1 creator1, 2 creator2",
     }
     names = {"_static_tree_file_message": "tmpl_tree_file", "_static_tree_product_message": "tmpl_tree_product",
-             "_glob_product_message": "tmpl_glob_product"}
+             "_glob_product_message": "tmpl_glob_product", "_volatile_input_message": "tmpl_volatile_input"}
     for key, t in msgs.items():
         nm = names.get(key, "tmpl_" + key)
         L.append(f"(* {doc[key]} *)")
